@@ -174,6 +174,18 @@ func RunMetaScript(spec MetaSpec) vx.Out {
 	defer vrt.Window(false)
 	doStep := func(st string) {
 		p := strings.Split(st, ":")
+		if p[0] == "exit" {
+			// a graceful shutdown (always the last step, possibly with a request still in
+			// flight): a kill may fall inside it like anywhere else, and what it writes is
+			// still bound by "a state the daemon passed through"
+			w.N.Exit()
+			w.exited = true
+			tr.Codes = append(tr.Codes, 200)
+			sample()
+			tr.Events = append(tr.Events, metaEvent{Kind: "snap", Snaps: since, Step: len(tr.Codes)})
+			since = nil
+			return
+		}
 		url := ""
 		ackObj := ""
 		var ackVal *bool
@@ -234,6 +246,14 @@ func RunMetaScript(spec MetaSpec) vx.Out {
 			wg.Wait()
 		} else {
 			doStep(st)
+		}
+		if w.exited {
+			// after a graceful shutdown there is no idle daemon whose state the file must
+			// equal: a request that raced the shutdown may have been acknowledged and not
+			// persisted (its asynchronous persist is skipped once exitChan is closed); the
+			// file is still bound by "a state the daemon passed through"
+			w.Quiesce()
+			continue
 		}
 		idle()
 	}
